@@ -125,12 +125,12 @@ class EarlyStopping(CallbackBase):
 
     def _change_in_metric(self):
         return self.value_getter(
-            self.quantity_name, -self.patience
+            self.quantity_name, -self.patience - 1
         ) - self.value_getter(self.quantity_name)
 
     def _relative_change(self):
         relative_change = self._change_in_metric() / self.value_getter(
-            self.quantity_name, -self.patience
+            self.quantity_name, -self.patience - 1
         )
         return abs(relative_change)
 
@@ -139,12 +139,12 @@ class EarlyStopping(CallbackBase):
 
     def _variance_scaled_abs_change(self):
         return abs(self._change_in_metric()) / np.sqrt(
-            self.variance_getter(self.quantity_name, -self.patience)
+            self.variance_getter(self.quantity_name, -self.patience - 1)
         )
 
     def on_epoch_end(self, nn_state, epoch):
         if epoch % self.period == 0:
-            if len(self.evaluator_callback) >= self.patience:
+            if len(self.evaluator_callback) > self.patience:
                 if self.deviation() < self.tolerance:
                     nn_state.stop_training = True
                     self.last_epoch = epoch
